@@ -778,7 +778,8 @@ class InspectFunction(object):
                         _logger.debug(
                             f"_path_annotation: local_path: %s is rejected", local_path
                         )
-                    return None
+                    # Not a decorator of dds (another library, something that is not tracked): look at the next one.
+                    continue
                 assert isinstance(z, AuthorizedObject)
                 caller_fun_path = z.resolved_path
                 # _logger.debug(f"_path_annotation: caller_fun_path: %s", caller_fun_path)
